@@ -81,6 +81,7 @@ type world struct {
 	Remote         map[string]remoteDoc
 	NewIDBase      string
 	Clock          int64
+	ClockNanos     int64 // the sub-second part of the clock's reading
 }
 
 type remoteDoc struct {
@@ -849,7 +850,7 @@ func (s socImpl) SocialCallbacks(c context.Context) (pub.SocialWrappedCallbacks,
 func (r *recorder) Now() time.Time {
 	r.yield("Now")
 	r.rec(entry{Kind: "now", Ans: answer{Kind: "z", Z: r.w.Clock}})
-	return time.Unix(r.w.Clock, 0).UTC()
+	return time.Unix(r.w.Clock, r.w.ClockNanos).UTC()
 }
 
 type recWriter struct {
